@@ -42,7 +42,9 @@ SPEC = {
         "handleHandshake take their locks several times; interleavings inside them are outside the theorems (C07_main is "
         "partial for schedules in exactly this sense) and are explored only by the concurrent blocks; what they find is "
         "recorded as evict-close-window",
-        "connection ids are never reused (C15): a second AcceptConnection with a used id is skipped by model and harness",
+        "connection ids: AcceptConnection with an id in use is refused (real call, CreateStream); an id whose connection was "
+        "torn down comes back as a new incarnation on a new fake transport (CloseConnection removes the stream since d6b8c5d); a "
+        "comeback while a packet of the previous incarnation is still being handled is not driven (model: refused)",
         "one packet at a time per connection (one read loop): no second handshake on a connection while one is in flight; in "
         "concurrent blocks the packets and the teardown of a connection stay in one block",
         "not driven: Register replacing an existing connection id and Register of a pre-authenticated connection "
